@@ -2,4 +2,5 @@ pub mod util;
 pub mod engine;
 pub mod model;
 pub mod gen;
+pub mod anyval;
 pub mod props;
